@@ -176,7 +176,8 @@ def judgeTexts (t : Ts) (dt http epoch : String) : Option (String × String) :=
       | some (u, n) =>
         let want : Int := t.unix * 1000000000 + t.nanos
         let got : Int := u * 1000000000 + n
-        let ok := if t.nanos % 1000000 = 0 then got = want else (got - want).natAbs < 1000000
+        -- the text goes through f64: it must denote the instant to within half a millisecond
+        let ok := (got - want).natAbs < 500000
         if ok then none else some ("ts-format-epoch", s!"text {String.fromUTF8! ⟨b.toArray⟩} does not denote {t.unix}.{t.nanos}")
   j1.orElse fun _ => j2.orElse fun _ => j3
 
@@ -261,9 +262,9 @@ def judgeTsRoundtrip (id : String) (t : Ts) (outs : List String) : String :=
         | some (some b) =>
           let want : Int := t.unix * 1000000000 + t.nanos
           let got : Int := b.unix * 1000000000 + b.nanos
-          let ok := if t.nanos % 1000000 = 0 then got = want else (got - want).natAbs < 1000000
-          if ok then none else some ("ts-reparse-epoch", s!"parsed back {epochBack}")
-        | _ => some ((if t.unix < 0 then "ts-epoch-pre1970" else "ts-reparse-epoch"), s!"own output not parsed back: {epochBack}")
+          if (got - want).natAbs < 500000 then none else some ("ts-reparse-epoch", s!"parsed back {epochBack}")
+        | _ => some ((if t.unix < 0 then "ts-epoch-pre1970" else "ts-epoch-f64-text"),
+            s!"own output {match unhx epoch with | some b => String.fromUTF8! ⟨b.toArray⟩ | none => epoch} not parsed back: {epochBack}")
     match sf with
     | some (cls, d) => specfail id cls d
     | none =>
@@ -369,12 +370,25 @@ def judgeCsRoundtrip (id : String) (b k : Bytes) (v : Option Bytes) (text repars
 
 /-! ### content type -/
 
-def judgeCtype (id : String) (s : Bytes) (res : String) : String :=
-  match ContentType.judge s res with
-  | .agree cls => agree id cls
-  | .disagree m => disagree id m res
-  | .specfail cls d => specfail id cls d
-  | .unmodelled r => unmodelled id r
+def ctStr (p : ContentType.Parsed) : String :=
+  let ps := p.params.map fun (k, v) => hexEncode k ++ "=" ++ hx v
+  s!"ok:{hx p.essence}:{if ps.isEmpty then "." else ",".intercalate ps}:{hx p.text}"
+
+/-- specification (independent of the model): what `try_into_header_value` writes must parse to the
+    same (type/subtype, parameters) — judged on every accepted input; then the subset model -/
+def judgeCtype (id : String) (s : Bytes) (res reparse : String) : String :=
+  let strip := fun (r : String) => ":".intercalate ((r.splitOn ":").take 3)   -- without the stored text
+  if res ≠ "err" && strip reparse ≠ strip res then
+    specfail id "ctype-roundtrip" s!"parsed={res} written-and-parsed-again={reparse}"
+  else
+    match ContentType.parseSubset s with
+    | none => unmodelled id "ctype-outside-subset"
+    | some p =>
+      let m := ctStr p
+      -- on the subset the stored text is a fixed point: parsing it again gives the same answer
+      let m2 := match ContentType.parseSubset p.text with | some q => ctStr q | none => "?"
+      if res ≠ m || reparse ≠ m2 then disagree id (m ++ " " ++ m2) (res ++ " " ++ reparse)
+      else agree id (if p.params.isEmpty then "ctype-subset" else "ctype-subset-params")
 
 end DtoDrv
 
@@ -412,9 +426,9 @@ def judge (fs : List String) : String :=
       match unhx b, unhx k, optHexDecode v with
       | some b, some k, some v => judgeCsRoundtrip id b k v text reparse
       | _, _, _ => badline id
-    | "ctype", [s], [res] =>
+    | "ctype", [s], [res, reparse] =>
       match unhx s with
-      | some s => judgeCtype id s res
+      | some s => judgeCtype id s res reparse
       | none => badline id
     | _, _, _ => badline id
   | _ :: id :: _ => badline id
